@@ -63,9 +63,13 @@ def _do_level(acc, roots, li, seen_local):
     partners = _CFG['partner_states'][li]
     nested = _CFG['nested_tail'] and li + 1 == len(levels) - 1
     want_succ = (li + 1 < len(levels)) and not nested
+    unary_srcs = [op.spellings[0][1].format('x') for op in level.unary]
     for root in roots:
+        firsts = []
         for op, operands in _transitions(root, level, partners):
             tr = dsl.apply(op, operands)
+            if len(operands) == 1 or (len(firsts) < len(level.unary) + 4 and operands[0] is root):
+                firsts.append((op, operands, dsl.outcome_sig(tr.outcomes[0][1])))
             acc.count('transitions')
             acc.count('executions', len(tr.outcomes))
             succ = dsl.successor(tr)
@@ -94,6 +98,13 @@ def _do_level(acc, roots, li, seen_local):
                 acc.succ.append((hk, desc(succ)))
             elif nested:
                 _do_level(acc, [succ], li + 1, seen_local)
+        # purity re-check: the same call on the same (by now much used) object must give the same result again
+        for op, operands, sig in firsts:
+            again = dsl.outcome_sig(dsl._run(op.spellings[0][1].format('_o0', '_o1'), [s.obj for s in operands]))
+            acc.count('purity_rechecks')
+            if again != sig:
+                for m in monitors:
+                    m.on_impure(root, op, operands, sig, again, unary_srcs, acc)
 
 
 def _task(arg):
